@@ -111,6 +111,7 @@ def domain_ok(op, ref):
 class HashSpec(Spec):
     component = 'hash'
     driver = 'hash'
+    extra_models = ('hashl',)   # pointer-level model (HashLinksModel.v): must print the same trace
     lib_srcs = []
     driver_extra = WRAP
     header_words = ('keys', 'ntabs', 'fail', 'failfrom', 'vsign')
